@@ -46,6 +46,8 @@ RULES = {
     "C17-c": "STOP: LenaStopFill only when the index iterator is exhausted; fill iff selected; index advances once",
     "C17-d": "ORIENTATION: deques are used first-in first-out (insertion side opposite to removal side)",
     "C17-f": "EXHAUSTION: the end of a flow is recognised by StopIteration (or a private sentinel object), never by a value the flow may contain",
+    "C17-h": "OPTION PROVENANCE: an option of the iterator elements stored under its own name (self._opt from the parameter opt) is "
+             "computed from that parameter alone, never widened or narrowed by another argument of the constructor",
     "C17-g": "TRANSPARENT ERRORS: a handler of the iterator elements that ends the flow quietly (except IndexError: return) encloses only "
              "the element's own container operation, never a pull from the incoming flow",
     "C17-e": "WINDOW: RunningChunkBy's first window and maxlen use the same size; yield-then-append; last window only if full; branches agree",
@@ -745,7 +747,42 @@ def check_transparent_errors(ctx):
         ctx.ok("C17-g", ("lena.flow.iterators", "<module>"), "%d try statements: quiet handlers cover no pull from the flow (StopIteration apart)" % n)
 
 
+def check_option_provenance(ctx):
+    """C17-h.  RunningChunkBy(container, from_iterable) builds its windows with container(*chunk) unless the caller said
+    from_iterable; an option that silently also depends on what the container is changes the windows for one family of
+    containers (a namedtuple class) and for nobody else.  Every stored option of the elements of lena.flow.iterators and
+    lena.flow.elements that carries the name of a constructor parameter may read only that parameter."""
+    n = 0
+    bad = 0
+    for mod, fn in ctx.tree.functions():
+        if mod.name not in (IT, EL) or fn.name != "__init__" or A.enclosing_class(fn) is None:
+            continue
+        params = {p for p in A.func_params(fn) if p != "self"}
+        for a in A.walk_local(fn):
+            if not (isinstance(a, ast.Assign) and len(a.targets) == 1 and A.is_self_attr(a.targets[0])):
+                continue
+            opt = a.targets[0].attr.lstrip("_")
+            if opt not in params:
+                continue
+            names = {x.id for x in ast.walk(a.value) if isinstance(x, ast.Name)}
+            if opt not in names:
+                continue
+            n += 1
+            others = sorted((names & params) - {opt})
+            if others:
+                bad += 1
+                ctx.violation("C17-h", a, "%s stores the option `%s` as `%s`, which also depends on the argument%s %s: the element no longer "
+                              "does what the caller asked for with this option for some values of the other argument (a container that is "
+                              "a tuple subclass built from separate values gets its windows as one iterable)" % (
+                                  A.qualname(fn), opt, A.short(a.value, 70), "s" if len(others) > 1 else "", ", ".join(others)),
+                              construct="option-provenance:%s:%s" % (A.qualname(fn), opt))
+    ctx.instances_floor("C17-h", n, 5, "options stored under their parameter's name in lena.flow.iterators / lena.flow.elements")
+    if not bad:
+        ctx.ok("C17-h", (IT, "<module>"), "%d stored options read only their own parameter" % n)
+
+
 def check(ctx):
+    check_option_provenance(ctx)
     check_transparent_errors(ctx)
     check_exhaustion(ctx)
     check_delegation(ctx)
@@ -760,6 +797,7 @@ ELF = "lena/flow/elements.py"
 VARIANTS = [
     M("reverse-try-covers-collection", ITF, "        all_huge_flow = list(flow)\n        while 1:\n            try:\n                yield all_huge_flow.pop()\n            except IndexError:\n                return",
       "        try:\n            all_huge_flow = list(flow)\n            while 1:\n                yield all_huge_flow.pop()\n        except IndexError:\n            return", ["C17-g"]),
+    M("from-iterable-widened", ELF, "        self._from_iterable = bool(from_iterable)", "        self._from_iterable = bool(from_iterable) or isinstance(container, type)", ["C17-h"]),
     M("stopfill-rewinds", ITF, "            except StopIteration:\n                raise lena.core.LenaStopFill()", "            except StopIteration:\n                self._indices = self._islice(itertools.count(0))\n                self._next_index = -1\n                self._index = 0\n                raise lena.core.LenaStopFill()", ["C17-c"]),
     M("window-kept-in-element", ELF, "        chunk = collections.deque(itertools.islice(flow, chunk_size),\n                                  maxlen=chunk_size)", "        chunk = self._chunk\n        chunk.extend(itertools.islice(flow, chunk_size))", ["C17-e"]),
     M("skip-with-none-sentinel", ITF, "                for _ in zip(range(start), flow):\n                    pass", "                for _ in range(start):\n                    if next(flow, None) is None:\n                        return", ["C17-f"]),
